@@ -55,7 +55,7 @@ fn shared_history(idx: u64, rng: &mut Rng, mon: &mut Mon) {
         }
         robots.push(r);
     }
-    let kins: Vec<OPWKinematics> = robots.iter().map(|r| OPWKinematics::new(to_params(&r.rp))).collect();
+    let kins: Vec<OPWKinematics> = robots.iter().map(|r| make_solver(rng, &r.rp)).collect();
     let nq = 1 + rng.usize(3);
     let qs: Vec<[f64; 6]> = (0..nq).map(|_| { let c = rng.usize(2); joints_class(rng, c) }).collect();
     let steps = 2 * nq * robots.len() + 2;
@@ -107,7 +107,7 @@ fn run_case(kind: &str, idx: u64, rng: &mut Rng, mon: &mut Mon, _tier: Tier) {
     let qclass = rng.usize(6);
     // class 4: exact multiples of a right angle (flange orientations that are exact half / quarter turns)
     let q = if qclass == 5 { joints_resting(rng, std::f64::consts::PI) } else if qclass == 4 { std::array::from_fn(|_| rng.int(-4, 4) as f64 * std::f64::consts::FRAC_PI_2) } else { joints_class(rng, qclass) };
-    let kin = OPWKinematics::new(to_params(&rp));
+    let kin = make_solver(rng, &rp);
     let reach = rp.reach();
     // forward() adds q2+q3+psi3 before taking the sine: for |q| >> 2pi that sum is rounded at
     // ulp(|q|), which the chained form does not do. The tolerance therefore grows with max|q|.
